@@ -62,6 +62,8 @@ type Agent struct {
 	CatalogDelay time.Duration
 	// FailHealth makes the next n health queries fail with HTTP 500.
 	failHealth int
+	// firstHealthDelay delays the answer to the very first health query (so that the KV watcher delivers first).
+	firstHealthDelay time.Duration
 }
 
 func New() (*Agent, error) {
@@ -140,6 +142,13 @@ func (a *Agent) DeleteKV(key string) uint64 {
 	return a.kvIdx
 }
 
+// DelayFirstHealth makes the first health query wait d before it is answered.
+func (a *Agent) DelayFirstHealth(d time.Duration) {
+	a.mu.Lock()
+	a.firstHealthDelay = d
+	a.mu.Unlock()
+}
+
 func (a *Agent) FailNextHealth(n int) {
 	a.mu.Lock()
 	a.failHealth = n
@@ -200,6 +209,12 @@ func (a *Agent) health(w http.ResponseWriter, r *http.Request) {
 	dl := time.Now().Add(wait)
 	a.mu.Lock()
 	a.HealthQueries++
+	if d := a.firstHealthDelay; d > 0 {
+		a.firstHealthDelay = 0
+		a.mu.Unlock()
+		time.Sleep(d)
+		a.mu.Lock()
+	}
 	if a.failHealth > 0 {
 		a.failHealth--
 		a.mu.Unlock()
